@@ -686,6 +686,84 @@ def _in_literal(text, off):
 # template processing
 
 
+
+def havoc_opaque_statements(inner, ty, member_vars, method_is_const, rep):
+    """opaque=<type>: values of <type> are identity tokens. Top-level statements that use such a value in any way
+    other than copy-initialising another one or handing it to the restart tape may change it in ways the token
+    abstraction cannot follow: each is replaced by a havoc of every token variable it mentions (locals always,
+    members unless the method is const). Over-approximation: a proof that passes is sound; a failure must be
+    confirmed natively (job attribute confirm=native) before it is reported."""
+    text = re.sub(r'/\*.*?\*/', lambda m: re.sub(r'[^\n]', ' ', m.group(0)), inner, flags=re.S)
+    text = re.sub(r'//[^\n]*', lambda m: ' ' * len(m.group(0)), text)
+    out = []
+    pos = 0
+    n = len(text)
+    locals_ = []
+    count = 0
+    while pos < n:
+        m = re.compile(r'\s*').match(text, pos)
+        out.append(inner[pos:m.end()])
+        pos = m.end()
+        if pos >= n:
+            break
+        start = pos
+        kw = re.compile(r'(for|while|if|switch)\b').match(text, pos)
+        if kw:
+            lp = text.index('(', pos)
+            rp = match_bracket(text, lp)
+            k = rp + 1
+            while True:
+                mm = re.compile(r'\s*').match(text, k)
+                k = mm.end()
+                if k < n and text[k] == '{':
+                    k = match_bracket(text, k) + 1
+                else:
+                    k = text.index(';', k) + 1
+                me = re.compile(r'\s*else\b\s*(if\s*)?').match(text, k)
+                if kw.group(1) == 'if' and me:
+                    k = me.end()
+                    if me.group(1):
+                        k = match_bracket(text, text.index('(', k - 1 if text[k - 1] == '(' else k)) + 1
+                    continue
+                break
+            end = k
+        elif text[pos] == '{':
+            end = match_bracket(text, pos) + 1
+        else:
+            depth = 0
+            k = pos
+            while k < n:
+                c = text[k]
+                if c in '({[':
+                    depth += 1
+                elif c in ')}]':
+                    depth -= 1
+                elif c == ';' and depth == 0:
+                    break
+                k += 1
+            end = min(k + 1, n)
+        st = text[start:end]
+        raw = inner[start:end]
+        pos = end
+        md = re.match(r'^(?:const\s+)?' + re.escape(ty) + r'\s+(\w+)\s*(?:=\s*(\w+)|\(\s*(\w+)\s*\))?\s*;$', st.strip(), re.S)
+        if md:
+            locals_.append(md.group(1))
+            src_ = md.group(2) or md.group(3)
+            out.append('%s %s%s;%s' % (ty, md.group(1), (' = ' + src_) if src_ else '', '\n' * raw.count('\n')))
+            continue
+        allv = locals_ + list(member_vars)
+        used = [v for v in allv if re.search(r'(?<![\w.>])' + re.escape(v) + r'\b', st)]
+        if not used or re.match(r'^CM_TAPE_WRITE\(\s*\w+\s*\);$', st.strip()) or re.match(r'^return\b', st.strip()):
+            out.append(raw)
+            continue
+        targets = [v for v in used if v in locals_ or not method_is_const]
+        count += 1
+        out.append('{ /* opaque %s used by a statement the token abstraction cannot follow: havoc */ %s }%s' % (
+            ty, ' '.join('%s = cm_opaque_havoc();' % v for v in targets), '\n' * raw.count('\n')))
+    rep['rules']['opaque_statement->havoc'] = count
+    return ''.join(out)
+
+
 class Block:
     def __init__(self, kind, attrs, lineno):
         self.kind = kind
@@ -1386,6 +1464,10 @@ class Extractor:
             rep['rewrites'].append(dict(regex=rx, repl=repl, hits=k, min=mn))
             if k < mn:
                 raise ExtractionError('%s: must-fire rewrite %r fired %d < %d times' % (a['cname'], rx, k, mn))
+        if a.get('opaque') and blk.kind != 'region':
+            mv = [x for x in a.get('opaquemembers', '').split(',') if x]
+            is_const = bool(re.search(r'\)\s*const\b', text[d['start']:d['body_lb']]))
+            inner = havoc_opaque_statements(inner, a['opaque'], mv, is_const, rep)
         # self-> for struct mode
         if a.get('self') == '1':
             names = member_names_by_class.get(a['class'])
